@@ -7,6 +7,7 @@ package ice
 // `go test -overlay`; nothing here is part of pion/ice.
 
 import (
+	"net/netip"
 	"sync/atomic"
 	"encoding/json"
 	"fmt"
@@ -382,4 +383,16 @@ func (c *vfCanary) worst() time.Duration { return time.Duration(c.max.Load()) }
 func (c *vfCanary) close() {
 	close(c.stop)
 	<-c.done
+}
+
+// vfRefCanonAP is the harness's own reference for "the same transport address": an IPv4 address in IPv6 form is the IPv4
+// address, and a zone counts only on link-local IPv6 addresses.  (Written from the documentation of canonicalAddr, not
+// calling it: an oracle that shares the subject's code inherits its mistakes.)
+func vfRefCanonAP(ap netip.AddrPort) netip.AddrPort {
+	a := ap.Addr().Unmap()
+	if !(a.Is6() && a.IsLinkLocalUnicast()) {
+		a = a.WithZone("")
+	}
+
+	return netip.AddrPortFrom(a, ap.Port())
 }
